@@ -18,6 +18,40 @@ def loop_spec(eng, fr):
     return k, spec
 
 
+MUTATORS = {"append", "extend", "pop", "popleft", "remove", "discard", "add", "clear", "update", "insert", "setdefault", "appendleft"}
+
+
+def mutated_containers(body):
+    """expressions (as source text: 'x' or 'self.f') whose list/dict value is mutated in place inside the loop body"""
+    out = set()
+
+    def base_text(n):
+        if isinstance(n, ast.Name):
+            return n.id
+        if isinstance(n, ast.Attribute) and isinstance(n.value, ast.Name):
+            return n.value.id + "." + n.attr
+        return None
+    for st in body:
+        for n in ast.walk(st):
+            if isinstance(n, ast.Subscript) and isinstance(n.ctx, (ast.Store, ast.Del)):
+                t = base_text(n.value)
+                if t:
+                    out.add(t)
+            elif isinstance(n, ast.AugAssign) and isinstance(n.target, ast.Subscript):
+                t = base_text(n.target.value)
+                if t:
+                    out.add(t)
+            elif isinstance(n, ast.AugAssign) and isinstance(n.target, (ast.Name, ast.Attribute)):
+                t = base_text(n.target)      # xs += [...] mutates a list in place
+                if t:
+                    out.add(t)
+            elif isinstance(n, ast.Call) and isinstance(n.func, ast.Attribute) and n.func.attr in MUTATORS:
+                t = base_text(n.func.value)
+                if t:
+                    out.add(t)
+    return out
+
+
 def assigned_names(body):
     names = set()
     fields = set()
@@ -77,9 +111,10 @@ def havoc(eng, fr, body, spec):
     locs = callee_modifies(eng, body, fr)
     for loc in (spec.modifies if spec else []):
         locs.append(resolve_location(eng, loc, fr.env))
+    types = spec.types if spec else {}
     for nm in sorted(names):
         if nm in fr.env:
-            fr.env[nm] = havoc_like(eng, fr.env[nm], nm)
+            fr.env[nm] = havoc_like(eng, fr.env[nm], nm, types.get(nm))
     for var, f in sorted(fields):
         base = fr.env.get(var)
         if isinstance(base, VObj):
@@ -96,11 +131,29 @@ def havoc(eng, fr, body, spec):
         cur = eng.state.heap.get((obj.oid, f))
         ty = field_type(eng, obj, f)
         eng.state.heap[(obj.oid, f)] = havoc_like(eng, cur, "loc.%s" % f, ty)
+    # containers mutated in place keep their identity but lose their content
+    for text in sorted(mutated_containers(body)):
+        try:
+            node = ast.parse(text, mode="eval").body
+            val = eng.force(pure_eval(eng, node, fr))
+        except Exception:
+            continue
+        if isinstance(val, (VList, VDict)):
+            havoc_like(eng, val, text, types.get(text))
 
 
 def eval_inv(eng, text, fr, old=None):
     env = dict(fr.env)
     return eng.truth(eng.eval_spec(text, env, fr.modname, old=old or getattr(fr, "old_state", None), old_env=getattr(fr, "entry_env", None)))
+
+
+def assume_invs(eng, spec, fr):
+    eng.assuming = True
+    try:
+        for nm, text in spec.invariants:
+            eng.assume(eval_inv(eng, text, fr))
+    finally:
+        eng.assuming = False
 
 
 def variant_terms(eng, text, fr):
@@ -137,8 +190,7 @@ def exec_while(eng, node, fr):
         eng.oblige("%s/inv-entry:%s" % (label, nm), eval_inv(eng, text, fr, old=getattr(fr, "old_state", None)), clause=text, kind="loop-inv")
     # 2. arbitrary iteration or exit
     havoc(eng, fr, node.body, spec)
-    for nm, text in spec.invariants:
-        eng.assume(eval_inv(eng, text, fr))
+    assume_invs(eng, spec, fr)
     iteration = eng.choose(2, "loop_iter") == 0
     guard = eng.truth(eng.eval(node.test, fr))
     if iteration:
@@ -241,8 +293,7 @@ def exec_for(eng, node, fr):
     eng.assume(i.t >= 0)
     eng.assume(i.t <= m.length)
     fr.env[idx_name] = i
-    for nm, text in spec.invariants:
-        eng.assume(eval_inv(eng, text, fr))
+    assume_invs(eng, spec, fr)
     iteration = eng.choose(2, "for_iter") == 0
     if iteration:
         eng.assume(i.t < m.length)
@@ -278,8 +329,7 @@ def exec_for_opaque(eng, node, fr, it, spec, label):
     for nm, text in spec.invariants:
         eng.oblige("%s/inv-entry:%s" % (label, nm), eval_inv(eng, text, fr), clause=text, kind="loop-inv")
     havoc(eng, fr, node.body, spec)
-    for nm, text in spec.invariants:
-        eng.assume(eval_inv(eng, text, fr))
+    assume_invs(eng, spec, fr)
     c = eng.choose(3, "next")     # 0: yields, 1: exhausted, 2: raises
     if c == 2:
         from .pyvc import RaiseSig, VExc
